@@ -3,7 +3,7 @@
 file) and call lib/seedcheck.sh."""
 import sys, os, re, glob, subprocess
 base, pid, m = sys.argv[1:4]
-checks = sys.argv[4:] or [pid]
+checks = [c for c in sys.argv[4:] if c != "--nocheck"] or ([] if "--nocheck" in sys.argv else [pid])
 d = "%s/%s/out/%s/demo" % (base, pid, m)
 txt = open(d + "/RUN.md").read() if os.path.exists(d + "/RUN.md") else ""
 tests = glob.glob(d + "/*_test.go")
@@ -17,7 +17,7 @@ rx = mrun.group(1) if mrun else "|".join(funcs)
 mp = re.search(r"(\./[\w/\.-]+)/?\s*`?$", line.strip().rstrip("`"))
 pkg = mp.group(1)[2:].rstrip("/") if mp else ""
 mod = "."
-if "cmd/atlas" in txt and (re.search(r"cd [^\n]*cmd/atlas", txt) or pkg.startswith("internal/") or pkg.startswith("cmd/atlas")):
+if pkg.startswith("internal/") or pkg.startswith("cmd/atlas"):
     mod = "cmd/atlas"
     pkg = pkg.replace("cmd/atlas/", "")
 if not pkg:
